@@ -580,17 +580,18 @@ class Normal(_AbstractDistribution):
             or type(self.covariance) == _numpy.float32
             or type(self.covariance) == int
         ):
-            determinant = self.covariance**self.dimensions
+            log_determinant = self.dimensions * _numpy.log(_numpy.abs(self.covariance))
         elif self.covariance.shape == (self.means.size, self.means.size):
-            determinant = _numpy.linalg.det(self.covariance)
+            log_determinant = _numpy.linalg.slogdet(self.covariance)[1]
         elif self.covariance.shape == (self.means.size, 1):
-            determinant = _numpy.prod(self.covariance)
+            log_determinant = _numpy.sum(_numpy.log(_numpy.abs(self.covariance)))
         else:
             raise ValueError("Covariance matrix shape not understood.")
 
+        # The determinant itself leaves the range of floating point numbers in high
+        # dimensions (e.g. a hundred variances of 1e-6), its logarithm does not.
         self.normalization_constant = 0.5 * (
-            _numpy.log(_numpy.abs(determinant))
-            + self.dimensions * _numpy.log(2 * _numpy.pi)
+            log_determinant + self.dimensions * _numpy.log(2 * _numpy.pi)
         )
 
     def generate(self, repeat=1, rng=_numpy.random.default_rng()) -> _numpy.ndarray:
